@@ -2,6 +2,7 @@ package props
 
 import (
 	"encoding/binary"
+	"fmt"
 	"io"
 	"net"
 	"time"
@@ -17,11 +18,30 @@ func init() { Registry["C15"] = genC15 }
 type scriptedConn struct {
 	chunks  [][]byte
 	written []byte
+	wlim    []int // Write accepts at most wlim[k] bytes on its k-th call (short writes); empty: everything
+	wcalls  int
+	// a reader that has consumed `chunks` waits here before it gets `later` (another connection is
+	// served in between)
+	gate    chan struct{}
+	later   [][]byte
+	drained chan struct{}
 }
 
 func (c *scriptedConn) Read(p []byte) (int, error) {
 	for len(c.chunks) > 0 && len(c.chunks[0]) == 0 {
 		c.chunks = c.chunks[1:]
+	}
+	if len(c.chunks) == 0 && c.gate != nil {
+		if c.drained != nil {
+			close(c.drained)
+			c.drained = nil
+		}
+		<-c.gate
+		c.gate = nil
+		c.chunks, c.later = c.later, nil
+		for len(c.chunks) > 0 && len(c.chunks[0]) == 0 {
+			c.chunks = c.chunks[1:]
+		}
 	}
 	if len(c.chunks) == 0 {
 		return 0, io.EOF
@@ -30,7 +50,15 @@ func (c *scriptedConn) Read(p []byte) (int, error) {
 	c.chunks[0] = c.chunks[0][n:]
 	return n, nil
 }
-func (c *scriptedConn) Write(p []byte) (int, error)        { c.written = append(c.written, p...); return len(p), nil }
+func (c *scriptedConn) Write(p []byte) (int, error) {
+	n := len(p)
+	if c.wcalls < len(c.wlim) && c.wlim[c.wcalls] < n {
+		n = c.wlim[c.wcalls]
+	}
+	c.wcalls++
+	c.written = append(c.written, p[:n]...)
+	return n, nil
+}
 func (c *scriptedConn) Close() error                       { return nil }
 func (c *scriptedConn) LocalAddr() net.Addr                { return &net.TCPAddr{} }
 func (c *scriptedConn) RemoteAddr() net.Addr               { return &net.TCPAddr{} }
@@ -292,6 +320,87 @@ func genC15(rng *hx.Rng, tier string, w *hx.Writer) error {
 			oracle = hx.Fail("frame-write-oversize", "writeTo accepted a payload over the limit")
 		}
 		w.Put(hx.Case{Entry: "framing", Op: 2, Args: hx.L(hx.B(p)), Impl: impl, Oracle: oracle, Tags: []string{"write", "nt"}})
+	}
+	// (g) the writer over a transport that takes the frame in pieces (short writes): every piece
+	// boundary of short frames, boundaries near both ends of longer ones, one byte at a time
+	for _, l := range []int{1, 2, 5, 100, 4096} {
+		p := rng.Bytes(l)
+		total := l + 4
+		var splits [][]int
+		if total <= 12 {
+			for a := 1; a < total; a++ {
+				splits = append(splits, []int{a})
+			}
+		} else {
+			for _, a := range []int{1, 3, 4, 5, total / 2, total - 5, total - 4, total - 3, total - 2, total - 1} {
+				splits = append(splits, []int{a})
+			}
+			splits = append(splits, []int{3, 1, total - 6, 1}, []int{total - 2, 1})
+		}
+		ones := make([]int, total+2)
+		for i := range ones {
+			ones[i] = 1
+		}
+		if total <= 200 {
+			splits = append(splits, ones)
+		}
+		for _, sp := range splits {
+			conn := &scriptedConn{wlim: sp}
+			impl := hx.Catch(func() string {
+				if err := p2p.VerifWriteTo(append([]byte{}, p...), conn); err != nil {
+					return hx.E
+				}
+				return hx.B(conn.written)
+			})
+			oracle := "ok"
+			if impl != hx.B(frameOf(p)) {
+				oracle = hx.Fail("frame-write-wrong", fmt.Sprintf("writeTo over a transport that accepts %v bytes per call did not emit length prefix + the whole payload (%d bytes)", sp, l))
+			}
+			w.Put(hx.Case{Entry: "framing", Op: 2, Args: hx.L(hx.B(p)), Impl: impl, Oracle: oracle, Tags: []string{"write-short-writes", "nt"}})
+		}
+	}
+	// (h) several connections are read at the same time (one reader goroutine per peer): a reader that
+	// has part of its length prefix waits while another connection is read, then goes on
+	for it := 0; it < 12; it++ {
+		// lengths whose prefixes differ in every byte position
+		pa, pb := rng.Bytes(1+rng.Intn(200)), rng.Bytes(0x010101+rng.Intn(5)*0x010203)
+		if it%4 == 3 {
+			pa, pb = pb, pa
+		}
+		fa := frameOf(pa)
+		cut := 1 + it%3
+		a := &scriptedConn{chunks: [][]byte{fa[:cut]}, gate: make(chan struct{}), later: [][]byte{fa[cut:]}, drained: make(chan struct{})}
+		drained := a.drained
+		b := &scriptedConn{chunks: randChunks(rng, frameOf(pb))}
+		res := hx.Catch(func() string {
+			done := make(chan string, 1)
+			go func() {
+				done <- hx.Catch(func() string {
+					v, err := p2p.VerifReadFrom(a)
+					if err != nil {
+						return hx.E
+					}
+					return hx.B(v)
+				})
+			}()
+			select {
+			case <-drained:
+			case <-time.After(2 * time.Second):
+				return "z9"
+			}
+			vb, err := p2p.VerifReadFrom(b)
+			close(a.gate)
+			va := <-done
+			if err != nil {
+				return hx.L(va, hx.E)
+			}
+			return hx.L(va, hx.B(vb))
+		})
+		oracle := "ok"
+		if res != hx.L(hx.B(pa), hx.B(pb)) {
+			oracle = hx.Fail("frame-read-wrong", fmt.Sprintf("two connections read at the same time (connection A interrupted after %d bytes of its length prefix): the frames read are not the frames sent", cut))
+		}
+		w.Put(hx.Case{Entry: "-", Op: 0, Args: hx.L(hx.B(pa), hx.B(pb), hx.Zi(cut)), Impl: res, Oracle: oracle, Tags: []string{"two-connections", "nt"}})
 	}
 	return nil
 }
